@@ -46,10 +46,10 @@ BOUNDS = {
     # part_edges: same bound for the relation core / the states around one group
     # sim       : (behaviours, depth) of `tlc -simulate` on the full schema for
     #             every schema that is not explored in full
-    "quick": dict(go_states=200_000, go_edges=600_000, full_edges=100_000,
+    "quick": dict(go_states=200_000, go_edges=250_000, full_edges=100_000,
                   part_edges=50_000, batch_edges=120_000, sim=(2, 10), paths=30,
                   mc_timeout=900, parallel=4, workers=4, shards=8),
-    "thorough": dict(go_states=2_000_000, go_edges=10_000_000, full_edges=3_200_000,
+    "thorough": dict(go_states=2_000_000, go_edges=4_000_000, full_edges=3_200_000,
                      part_edges=600_000, batch_edges=1_500_000, sim=(10, 30), paths=300,
                      mc_timeout=6000, parallel=4, workers=4, shards=16),
 }
@@ -103,8 +103,15 @@ def discover_and_dump(binary, d, rep):
     return cands, recs, skipped
 
 
+def genv():
+    """the real-machine drivers allocate a lot of short-lived garbage"""
+    e = goenv()
+    e.setdefault("GOGC", "400")
+    return e
+
+
 def run_stdout(cmd, timeout=None):
-    p = subprocess.run(cmd, env=goenv(), stdout=subprocess.PIPE, stderr=subprocess.PIPE,
+    p = subprocess.run(cmd, env=genv(), stdout=subprocess.PIPE, stderr=subprocess.PIPE,
                        text=True, timeout=timeout)
     return p.returncode, (p.stdout if p.returncode == 0 else p.stdout + p.stderr)
 
@@ -210,12 +217,22 @@ def bfs(binary, path, states_prefix=None, timeout=3000):
 
 def plan(binary, d, recs, B):
     """Decide, from the real machine's own search, how TLC explores each schema."""
+    # a schema whose machine does not come up clean (Parse error -> Exception is
+    # active after New) has no "empty machine": the static formulas report it,
+    # the reachability part skips it
+    broken = [r for r in recs if r["mach_err"] or r["parse_err"]]
+    recs = [r for r in recs if not (r["mach_err"] or r["parse_err"])]
     full = [record(r, "full", "all states", set(r["index"]), B["go_states"], B["go_edges"])
             for r in recs]
     fpath = os.path.join(d, "full.ndjson")
     write_records(fpath, full)
     sizes = bfs(binary, fpath, states_prefix=os.path.join(d, "states"))
+    state_files = {r["id"]: os.path.join(d, "states.%d.ndjson" % (k + 1))
+                   for k, r in enumerate(recs)}
     chosen, modes, parts = [], {}, []
+    for r in broken:
+        modes[r["id"]] = dict(mode="none", exhaustive=False, go_states=0, go_truncated=False,
+                              reason="machine not clean after New: " + (r["mach_err"] or r["parse_err"]))
     for k, (r, f, sz) in enumerate(zip(recs, full, sizes)):
         if not sz["truncated"] and sz["states"] * sz["ops"] <= B["full_edges"]:
             f = dict(f, est_edges=sz["states"] * sz["ops"], est_states=sz["states"])
@@ -263,7 +280,7 @@ def plan(binary, d, recs, B):
                 if fits(sz):
                     chosen.append(dict(c, max_edges=0, est_edges=sz["states"] * sz["ops"],
                                        est_states=sz["states"]))
-    return chosen, modes, sizes
+    return chosen, modes, state_files
 
 
 def batches(chosen, limit):
@@ -310,7 +327,7 @@ def tlc_replay(binary, records, name, d, B, sd, emit=True, simulate=None, invari
                                "-paths", str(B["paths"]), "-seed", str(sd),
                                "-trace", os.path.join(d, name + ".trace")],
                               stdin=p1.stdout, stdout=subprocess.PIPE, stderr=subprocess.PIPE,
-                              text=True, env=goenv())
+                              text=True, env=genv())
         p1.stdout.close()
         out2, err2 = p2.communicate()
         rc1 = p1.wait()
@@ -368,7 +385,7 @@ def run_mc(binary, d, chosen, B, sd, rep):
 
 
 def run_sim(binary, d, recs, modes, B, sd):
-    todo = [r for r in recs if modes[r["id"]]["mode"] != "full"]
+    todo = [r for r in recs if modes[r["id"]]["mode"] not in ("full", "none")]
     results = []
 
     def one(i):
@@ -392,14 +409,14 @@ def schema_line(rec):
     return json.dumps(dict(ev="schema", d=d))
 
 
-def build_traces(d, recs, mc_results, nshards=16):
+def build_traces(d, recs, state_files, mc_results, nshards=16):
     """Per schema: the schema line, the sets of the real machine's full search,
     the code-only sets and path executions of every TLC exploration."""
     chunks = []   # (nlines, schema id, [files])
     for k, r in enumerate(recs):
         files = []
-        sf = os.path.join(d, "states.%d.ndjson" % (k + 1))
-        if os.path.exists(sf):
+        sf = state_files.get(r["id"])
+        if sf and os.path.exists(sf):
             files.append(sf)
         for res in mc_results:
             for st in res["stats"]:
@@ -469,13 +486,23 @@ def check(tier):
     binary = build_harness()
     d = scratch(PROP)
     try:
+        phases = {}
+        t0 = time.time()
         cands, recs, skipped = discover_and_dump(binary, d, rep)
         if not recs:
             raise Inconclusive("no schema discovered")
         byid = {r["id"]: r for r in recs}
-        chosen, modes, sizes = plan(binary, d, recs, B)
+        phases["discover_dump"] = round(time.time() - t0, 1)
+        t0 = time.time()
+        chosen, modes, state_files = plan(binary, d, recs, B)
+        phases["real_machine_search"] = round(time.time() - t0, 1)
+        t0 = time.time()
         mc = run_mc(binary, d, chosen, B, sd, rep)
+        phases["tlc_explore_replay"] = round(time.time() - t0, 1)
+        t0 = time.time()
         sim = run_sim(binary, d, recs, modes, B, sd)
+        phases["tlc_simulate_replay"] = round(time.time() - t0, 1)
+        t0 = time.time()
 
         # ---- binding 1: every edge TLC explored, executed on the real machine
         tlc_states = tlc_edges = replayed = nontrivial = 0
@@ -534,8 +561,10 @@ def check(tier):
                         st["id"], st["incomplete_sample"]))
 
         # ---- binding 2 + verdict: TLC evaluates the formulas on the code's output
-        paths, index = build_traces(d, recs, mc, nshards=B["shards"])
+        paths, index = build_traces(d, recs, state_files, mc, nshards=B["shards"])
         res = validate(paths, timeout=B["mc_timeout"])
+        phases["tlc_trace_validation"] = round(time.time() - t0, 1)
+        rep.coverage["phase_wall_s"] = phases
         go_states = path_edges = 0
         static_seen = set()
         for r, lines in zip(res, index):
@@ -572,12 +601,17 @@ def check(tier):
                     act = list(detail)
                     pos = sorted(rec["index"].index(n) + 1 for n in act)
                 ops = path_to(binary, d, rec, pos, B)
+                if ops is None:
+                    raise Inconclusive("no path found to the failing set %s of %s" % (act, sid))
+                ops = [["add" if o > 0 else "remove", rec["index"][abs(o) - 1]] for o in ops]
                 sig = dict(formula=f, schema=sid, active=sorted(act))
                 rep.violation(sig, dict(kind="state", property=PROP, formula=f, schema=sid,
                                         active=sorted(act), ops=ops),
-                              "%s false in reachable set %s of %s; path from the empty machine "
-                              "(+k Add1 / -k Remove1 of index position k): %s; %d failing sets "
-                              "in this trace shard" % (f, sorted(act), sid, ops, x["nviol"]))
+                              "%s false in reachable set %s of %s; path from the empty machine: "
+                              "%s; %d failing sets in this trace shard" % (
+                                  f, sorted(act), sid,
+                                  " ".join("%s1(%s)" % (o.capitalize(), n) for o, n in ops),
+                                  x["nviol"]))
             for dr in x["drift"]:
                 rep.drift.append("%s line %d: %s (%s)" % (os.path.basename(r["file"]), dr[0],
                                                          dr[1], dr[2]))
@@ -639,8 +673,13 @@ def replay(path):
                 r = record(rec, "full", "replay", set(rec["index"]), 0)
                 ip = os.path.join(d, "in.ndjson")
                 write_records(ip, [r])
-                rc, out = run_stdout([binary, "schemas-path", "-in", ip, "-ops",
-                                      json.dumps(obj["ops"])], timeout=600)
+                pos = {n: i + 1 for i, n in enumerate(rec["index"])}
+                missing = [n for _, n in obj["ops"] if n not in pos]
+                if missing:
+                    raise Inconclusive("states %s are not in the schema any more" % missing)
+                ops = [pos[n] if o == "add" else -pos[n] for o, n in obj["ops"]]
+                rc, out = run_stdout([binary, "schemas-path", "-in", ip, "-ops", json.dumps(ops)],
+                                     timeout=600)
                 if rc != 0:
                     raise Inconclusive("schemas-path failed: " + out[-1500:])
                 for l in out.splitlines():
@@ -649,6 +688,8 @@ def replay(path):
         res = validate([tp], timeout=600)[0]
         if res["result"] is None:
             raise Inconclusive("TraceSchemas did not finish:\n" + res["out"][-2000:])
+        for dr in res["result"]["drift"]:
+            rep.drift.append("replay line %d: %s (%s)" % (dr[0], dr[1], dr[2]))
         for v in res["result"]["viol"]:
             if v[1] == obj["formula"]:
                 rep.violation(dict(formula=v[1], schema=obj["schema"], active=obj.get("active")),
